@@ -622,6 +622,75 @@ func (oa *orderAnalysis) effects(l *ordLoop) (effs []ordEffect, earlyExit bool) 
 			}
 		}
 	}
+	// a branch inside the body that is decided by what earlier iterations accumulated: which elements get the full
+	// treatment then depends on the order they come in
+	if l.header != nil {
+		carried := map[ssa.Value]bool{}
+		for _, in := range l.header.Instrs {
+			ph, ok := in.(*ssa.Phi)
+			if !ok {
+				break
+			}
+			if strings.HasPrefix(ph.Comment, "rangeindex") || strings.HasPrefix(ph.Comment, "rangeiter") {
+				continue
+			}
+			for i, e := range ph.Edges {
+				if l.blocks[ph.Block().Preds[i]] && e != ssa.Value(ph) {
+					carried[ph] = true
+				}
+			}
+		}
+		var dep func(v ssa.Value, d int) *ssa.Phi
+		dep = func(v ssa.Value, d int) *ssa.Phi {
+			if d > 6 {
+				return nil
+			}
+			if ph, ok := v.(*ssa.Phi); ok && carried[ph] {
+				return ph
+			}
+			switch x := v.(type) {
+			case *ssa.BinOp:
+				if r := dep(x.X, d+1); r != nil {
+					return r
+				}
+				return dep(x.Y, d+1)
+			case *ssa.UnOp:
+				if x.Op == token.NOT || x.Op == token.SUB {
+					return dep(x.X, d+1)
+				}
+			case *ssa.Convert:
+				return dep(x.X, d+1)
+			case *ssa.ChangeType:
+				return dep(x.X, d+1)
+			case *ssa.Call:
+				if b, ok := x.Call.Value.(*ssa.Builtin); ok && (b.Name() == "len" || b.Name() == "cap") {
+					return dep(x.Call.Args[0], d+1)
+				}
+			case *ssa.Phi:
+				for _, e := range x.Edges {
+					if r := dep(e, d+1); r != nil {
+						return r
+					}
+				}
+			}
+			return nil
+		}
+		if len(carried) > 0 {
+			for b := range l.blocks {
+				iff, ok := lastInstr(b).(*ssa.If)
+				if !ok || b == l.header {
+					continue
+				}
+				if ph := dep(iff.Cond, 0); ph != nil {
+					// leaving the loop on accumulated state is the early-exit case below
+					if !l.blocks[b.Succs[0]] || !l.blocks[b.Succs[1]] {
+						continue
+					}
+					add("branch:carried-state", "a branch in the body tests "+ph.Comment+", which earlier iterations changed", iff.Cond.Pos(), 2)
+				}
+			}
+		}
+	}
 	// early exits
 	if l.yield {
 		for _, b := range l.fn.Blocks {
